@@ -53,7 +53,8 @@ def case_strategy(draw, ctx):
                 kind = draw(st.sampled_from(["reset", "restart", "restart_norec", "rerun_full"]))
             else:
                 n = draw(st.integers(1, T - cur))
-                ops.append([kind, n])
+                # the split point may be handed over as a Python int or as a JAX integer scalar (documented: int | jax.Array)
+                ops.append([kind, n] + (["jax"] if draw(st.integers(0, 2)) == 0 else []))
                 cur += n
                 continue
         if kind == "reset":
@@ -146,8 +147,9 @@ def body(ctx, case):
         what = f"after op {i} {op} (history {case['ops'][:i + 1]})"
         if op[0] in ("advance", "advance_norec"):
             rec = op[0] == "advance"
+            as_jax = (lambda v: jnp.asarray(v, dtype=jnp.int32)) if "jax" in op else (lambda v: v)
             t, arrays = custom_fdtd_forward(arrays, b.objects, b.config, b.key, reset_container=False, record_detectors=rec,
-                                            start_time=cur, end_time=cur + op[1], show_progress=False)
+                                            start_time=as_jax(cur), end_time=as_jax(cur + op[1]), show_progress=False)
             if rec:
                 record_segment(cur, cur + op[1])
             cur += op[1]
